@@ -1,6 +1,8 @@
 // C05: the string-literal decoder kernel (the configuration's parseStringInplace) against the reference un-escaper.
 //   param0 = N (symbolic literal bytes after the opening quote), param1 = max number of backslashes among them
 //   (N+1 = unrestricted), param2 = number of leading plain symbolic bytes before the unrestricted tail (family),
+//   param3 = 1: "escape first" family: byte 0 is a backslash (so the decoder is in its copying phase from the start), every
+//   other byte is no backslash, bytes 6 .. N-3 are plain and the last two bytes are unrestricted (any raw control byte, quote)
 // Buffer is document-style: N bytes + the sentinel  x"x  + 61 never-written pad bytes, in an object of N+64 bytes.
 #include "sonic/internal/arch/simd_quote.h"
 #include "sonic/error.h"
@@ -17,7 +19,11 @@ extern "C" int h_str(void) {
   // family "at most maxbs backslashes": their positions p1 <= p2 are picked first (the engine forks over them, n = none) and every
   // other byte is constrained to be no backslash; byte values stay symbolic everywhere (also at p1/p2, which may hold any byte)
   size_t p1 = n, p2 = n;
-  if (maxbs <= n) {
+  long escfirst = verif_param(3);
+  if (escfirst) {
+    p1 = 0; verif_assume(buf[0] == '\\');
+    for (size_t i = 6; i + 2 < n; i++) verif_assume(buf[i] >= 0x20 && buf[i] != '"');
+  } else if (maxbs <= n) {
     if (maxbs >= 1) p1 = verif_concrete(verif_range(plain, n, "bs1"));
     if (maxbs >= 2) p2 = verif_concrete(verif_range(p1, n, "bs2"));
   }
